@@ -86,6 +86,8 @@ RACE_WHAT = {
                                        "the topic: a concurrent UNREGISTER of the last other producer deleted the key",
     "register-vs-topic-delete": "REGISTER topic channel overlapping /topic/delete left the producer registered for the "
                                 "topic but not for the channel (no serial order gives that)",
+    "create-channel-vs-topic-delete": "POST /channel/create overlapping POST /topic/delete left the topic without the "
+                                      "channel created with it, or the channel without its topic (no serial order gives that)",
 }
 
 
